@@ -140,6 +140,23 @@ pub struct Observation {
     pub peer_survivors: Vec<String>,
     /// harness-level problem (not a property violation): the run cannot be judged
     pub harness_error: Option<String>,
+    /// duo run: the other process, both processes run alone, and the interleaving
+    #[serde(default)]
+    pub duo: Option<Box<DuoObs>>,
+}
+
+#[derive(Clone, Debug, Default, Serialize, Deserialize)]
+pub struct DuoObs {
+    /// the partner as it ran next to this process
+    pub partner: Observation,
+    /// this scenario / the partner's run alone (same scenario, same tape)
+    pub solo: Observation,
+    pub partner_solo: Observation,
+    /// who was let go at each decision, and the point it had announced
+    pub turns: Vec<u8>,
+    pub labels: Vec<String>,
+    /// how often the process let go was not the one let go before
+    pub switches: u32,
 }
 
 impl Observation {
